@@ -54,6 +54,6 @@ pub fn handle(cmd: &str, args: &[Sexp]) -> Result<String, String> {
             };
             Ok(show(call.exec(), cmd == "call-t"))
         }
-        _ => Err(format!("unknown command {cmd}")),
+        _ => crate::plug::handle(cmd, args),
     }
 }
